@@ -11,8 +11,8 @@ RULE = ("case = (check, mass-configuration class, outside value, route); mass co
         "the box contains both inside and outside points (classification) or the event sample is not degenerate")
 ASSUMPTIONS = ["PDG Dalitz-plot limits from the (23)-frame energies as reference",
                "points closer than 1e-9 (relative to m0^2) to a limit are not judged"]
-FLOORS = {"quick": {"evaluations": 400, "distinct_nontrivial": 20, "hooks": ["lambdify:is_within_phasespace", "lambdify:Kibble", "lambdify:numbers_before_doit", "exact:Kallen"]},
-          "thorough": {"evaluations": 4000, "distinct_nontrivial": 40, "hooks": ["lambdify:is_within_phasespace", "lambdify:Kibble", "lambdify:numbers_before_doit", "exact:Kallen"]}}
+FLOORS = {"quick": {"evaluations": 400, "distinct_nontrivial": 20, "hooks": ["lambdify:is_within_phasespace", "lambdify:Kibble", "lambdify:numbers_before_doit", "exact:Kallen", "construct:keyword_order"]},
+          "thorough": {"evaluations": 4000, "distinct_nontrivial": 40, "hooks": ["lambdify:is_within_phasespace", "lambdify:Kibble", "lambdify:numbers_before_doit", "exact:Kallen", "construct:keyword_order"]}}
 CASE_TIMEOUT = {"quick": 180, "thorough": 600}
 EPS = np.finfo(float).eps
 MASS_CLASSES = ["generic", "one_massless", "two_massless", "all_massless", "equal", "hierarchical", "near_threshold"]
@@ -221,6 +221,25 @@ def run_case(case, rec, ctx):
     rec.check(bool((np.abs(kb - k) <= tol).all()), "routes_disagree", "Kallen: lambdified != unfolded evaluate()", None, feats)
 
 
+    # calling conventions: the same arguments by keyword, in any order, and partly positional, denote the same function
+    kib_fields = ["sigma1", "sigma2", "sigma3", "m0", "m1", "m2", "m3"]
+    kal_fields = ["x", "y", "z"]
+    from ampform.kinematics import phasespace as P2
+    for cls_, fields_, symv in ((P2.Kibble, kib_fields, [S["s1"], S["s2"], S["s3"], S["m0"], S["m1"], S["m2"], S["m3"]]),
+                                (P2.Kallen, kal_fields, [S["x"], S["y"], S["z"]])):
+        ref_obj = cls_(*symv)
+        for trial in range(4):
+            order = [int(i_) for i_ in rng.permutation(len(fields_))]
+            n_pos = [0, 0, int(rng.integers(1, len(fields_))), len(fields_) - 1][trial]
+            kw = {fields_[i_]: symv[i_] for i_ in order if i_ >= n_pos}
+            try:
+                obj = cls_(*symv[:n_pos], **kw)
+                ok_ = obj == ref_obj and obj.args == ref_obj.args
+                what_ = f"{cls_.__name__}: {n_pos} positional + keywords in the order {list(kw)} gives args {obj.args}, expected {ref_obj.args}"
+            except Exception as exc:  # noqa: BLE001
+                ok_, what_ = False, f"{cls_.__name__}: keyword construction in the order {list(kw)} raised {exc!r}"
+            rec.check(bool(ok_), "keyword_construction", what_, None, {**feats, "route": "keyword_order"})
+    rec.hit("construct:keyword_order")
     # exact-number route: Kallen unfolded with exact arguments, zeros in every slot
     import sympy as sp
     from ampform.kinematics import phasespace as P
